@@ -35,6 +35,15 @@ CLAIMED = {
  "C16": ("TLA+ weekday navigation (OpsModifiers: NextOrd/PrevOrd/FirstOfOrd/LastOfOrd/NthOfOrd over Calendar.tla, model-checked in MC_Calendar); TLC trace validation over all month shapes and tz-database anomaly days",
          "every recorded next/previous/first_of/last_of/nth_of call - all 28 month shapes x quarters x leap years x 7 weekdays (and none) x n up to 54 x 3 units for Date, UTC and naive DateTime; zone DateTimes on, around and far from days with a skipped or repeated midnight, both folds, with and without keep_time - is judged by TLC: target date, 00:00 (or kept time) normalised by the construction rules, PendulumException exactly when the unit holds fewer than n",
          "TLC, tz database as above, harness projection", "7 C16"),
+ "C09": ("TLA+ Duration normalisation in exact limb arithmetic (OpsDuration: D3OfArgs, RestOf, Breakdown), laws model-checked on a boundary grid (MC_Duration); TLC trace validation of constructed Durations and their rebuilds",
+         "TLC checks the limb arithmetic laws (ring laws, exact division, canonical breakdown: ranges, common sign, exact sum) exhaustively on a boundary grid; every recorded Duration(...)/duration(...) - pairs of components at boundary values incl. sign-cancelling ones, random mixed-sign tuples, whole-second totals up to 1e9 days - is judged by TLC: native timedelta slots, years/months as given, the six canonical components, total_*()/in_*() against total_seconds(), and the rebuild from its own components",
+         "TLC, harness projection (base-class timedelta descriptors; floats reduced to the nearest microsecond); inputs beyond the float-exact range (>= 2^33 s with a sub-second part) are not judged", "7 C09"),
+ "C10": ("TLA+ timedelta arithmetic on Dur3 limbs (OpsDuration: add/sub/neg/abs, int and dyadic-float scaling with round-half-even, floor division, mod, divmod), laws model-checked (MC_Duration); TLC trace validation of every operator x operand-type pairing",
+         "every recorded -d, abs(d), d+x, x+d, d-x, x-d, d*n, n*d, d*f, d/n, d/f, d//n, d//x, d%x, divmod(d,x), d/x, comparisons and hashes - x a Duration or a plain timedelta on either side, either sign, ties of round-half-even - is judged by TLC for value and, where the property demands it, result type; years/months under negation and integer scaling",
+         "TLC, harness projection; scalars |n| <= 2000, floats k/2^j; duration-by-duration division only where both operands fit the limb bounds (below 2000 s, or whole seconds below 24000 days)", "7 C10"),
+ "C20": ("TLA+ time-of-day arithmetic modulo 24 h (OpsDuration: TimeAdd/TimeDiff), modular laws model-checked (MC_Duration); TLC trace validation of Time.add/subtract/+-timedelta/diff/closest/farthest",
+         "every recorded Time.add/subtract/+ timedelta/- timedelta (boundary times x amounts spanning several days of either sign, subtract undoing add on the threaded object, timedeltas with a day component must raise TypeError), diff/t2 - t1/native operands over all pairs of a boundary set, closest/farthest is judged by TLC to the microsecond",
+         "TLC, harness projection; negative sub-day timedeltas (whose normal form has days = -1) are not judged: 'a day component' has two readings there", "7 C20"),
 }
 NOT_YET = "check not built yet in this round (planned: see DESIGN.md section 7)"
 
